@@ -66,6 +66,16 @@ func (db *DB) handleSubscription(ctx context.Context, r *request.Request) (<-cha
 			}
 			ctx := InitContext(ctx, txn)
 
+			// An update of a document that belongs to another collection is of no concern to this
+			// subscription. (Running the selection for it would fail while rebuilding the foreign
+			// document's state with this collection's fields, and the error - which names the commit
+			// and a field of the foreign document - would be sent to the subscriber.)
+			if col, err := db.getCollectionByName(ctx, subRequest.Collection); err == nil &&
+				evt.CollectionID != "" && col.Version().CollectionID != evt.CollectionID {
+				txn.Discard(ctx)
+				continue
+			}
+
 			p := planner.New(ctx, identity.FromContext(ctx), db.documentACP, db)
 			s := subRequest.ToSelect(evt.DocID, evt.Cid.String())
 
